@@ -261,6 +261,10 @@ def check(ctx):
     ctx.clause = "5-message-length"
     _message_length(ctx, repo, msg)
 
+    # incremental length adjustments anywhere in DiameterMessage use length + padding (shared with C11 clause 4)
+    from .c11 import length_arith_all
+    length_arith_all(ctx, repo, msg)
+
     # ---- 5b accessor agreement (what the bookkeeping adds is what dump() emits) ------------------------------
     ctx.clause = "5b-accessor-agreement"
     acc = [(avp, "get_length", ["int.from_bytes(self.length, byteorder='big')"]),
